@@ -7,6 +7,7 @@ CONSTANTS
   Reject = {}
   SendMax = 1
   MaxChan = 2
+  LidMode = "abstract"
   Dev = {}
 SPECIFICATION Spec
 CONSTRAINT ChanBound
